@@ -17,7 +17,7 @@ Fill(g) == IF g.solved THEN [solved |-> TRUE, fit |-> g.fit, age |-> g.age, div 
            ELSE [solved |-> FALSE, fit |-> g.fit, age |-> g.age, div |-> DivOf(g), cplx |-> 6 + g.fit, wn |-> 0, wg |-> 0, we |-> 0]
 \* longer series (the empirical-quantile index depends on the length: n * p crosses integers at other places than for n <= 6):
 \* three value patterns with repeats, in ascending, descending and scrambled order, for a spread of lengths
-LongLens == {7, 8, 9, 10, 11, 12, 13, 16, 25, 40}
+LongLens == {7, 8, 9, 10, 11, 12, 13, 16, 25, 40, 63, 64, 65, 100, 128, 257}   \* (also beyond any size at which an implementation may switch algorithms)
 Pat(k, i) == CASE k = 1 -> ((i * 7) % 11) - 3
                [] k = 2 -> i
                [] k = 3 -> -((i * i) % 13)
